@@ -184,6 +184,9 @@ func recvHandler(w *workerCtx, line []byte) (any, error) {
 			}
 			sargs = append(sargs, ".", sub)
 			p = drv.StartServerReceiver(srv, mod, sargs, -1, -1, nil)
+			for _, x := range s.Prot {
+				p.SendRules = append(p.SendRules, "- "+x) // the user's exclude rules protect these names from --delete
+			}
 			err = p.ClientHandshake(s.Opts["del"])
 			if err != nil {
 				o.Result, o.Err = "err", "handshake: "+err.Error()
